@@ -1,8 +1,13 @@
 import GoDcp.Driver.Pure
+import GoDcp.Driver.Version
+import GoDcp.Driver.Rollback
+import GoDcp.Driver.Health
+import GoDcp.Driver.Keys
+import GoDcp.Driver.AsyncOp
 /-! registry of all stateless handlers (one list per slice) -/
 namespace GoDcp.Driver
 
 def allHandlers : List (String × (List String → Option String → Option Out)) :=
-  pureHandlers
+  pureHandlers ++ versionHandlers ++ rollbackHandlers ++ healthHandlers ++ keysHandlers ++ asyncOpHandlers
 
 end GoDcp.Driver
